@@ -1327,6 +1327,12 @@ class SymRange:
     def __init__(self, start, stop):
         self.start, self.stop = start, stop
 
+    def __bool__(self):
+        raise Unsupported('truth value of a symbolic range taken outside Interp.truth')
+
+    def __len__(self):
+        raise Unsupported('len() of a symbolic range')
+
     def _pyvc_iter(self, it):
         k = self.start
         n = 0
@@ -1343,7 +1349,7 @@ def b_range(it, *a):
     if any(is_sym(x) for x in a):
         if len(a) == 1:
             return SymRange(0, a[0])
-        if len(a) == 2 and not is_sym(a[0]):
+        if len(a) == 2:
             return SymRange(a[0], a[1])
         raise Unsupported('range with symbolic start/step')
     return range(*a)
